@@ -773,6 +773,9 @@ func corpusCV(cfg *config) []string {
 		// laps counted from 1, and laps with a number missing (a lap deleted in the app)
 		mk("conv", "-", "def", "Time,UTC Time,GPS_Update\n0.000,100.000,1\n# Lap 1: 00:00:01.000\n1.000,101.000,1\n# Lap 2: 00:00:01.000\n2.000,102.000,1\n# Lap 3: 00:00:01.000\n3.000,103.000,1\n"),
 		mk("conv", "-", "def", "Time,UTC Time,GPS_Update\n0.000,100.000,1\n# Lap 0: 00:00:01.000\n1.000,101.000,1\n# Lap 1: 00:00:01.000\n2.000,102.000,1\n# Lap 3: 00:00:01.000\n3.000,103.000,1\n# Lap 4: 00:00:01.000\n4.000,104.000,1\n"),
+		// the first converted row logged at exactly 00:00:00.000 UTC, start dates later and earlier than the logged day
+		mk("shift", "1654819200", "nil", "Time,UTC Time,GPS_Update\n0.000,1654041540.000,1\n# Lap 0: 00:01:00.000\n60.000,1654041600.000,1\n61.000,1654041601.000,1\n# Lap 1: 00:00:02.000\n62.000,1654041602.000,1\n"),
+		mk("shift", "1653868800", "nil", "Time,UTC Time,GPS_Update\n0.000,1654041540.000,1\n# Lap 0: 00:01:00.000\n60.000,1654041600.000,1\n61.000,1654041601.000,1\n# Lap 1: 00:00:02.000\n62.000,1654041602.000,1\n"),
 		// start date equal to the logged day, session running past UTC midnight
 		mk("shift", "1653955200", "nil", "Time,UTC Time,GPS_Update\n0.000,1654041590.000,1\n# Lap 0: 00:00:01.000\n1.000,1654041598.000,1\n# Lap 1: 00:00:05.000\n6.000,1654041603.000,1\n# Lap 2: 00:00:05.000\n11.000,1654041608.000,1\n"),
 	}
